@@ -12,7 +12,7 @@ if WT:
 ENV = dict(os.environ); ENV["ORX_REPO"] = TARGET
 assert sh("git -C %s status --porcelain -- src" % TARGET).stdout.strip() == ""
 res = {}
-for pf in sorted(glob.glob(sys.argv[1] + "/b*.diff")):
+for pf in sorted(glob.glob(sys.argv[1] + "/*.diff")):
     name = os.path.basename(pf)[:-5]
     if sh("git -C %s apply %s" % (TARGET, pf)).returncode != 0:
         print(name, "cannot apply"); continue
